@@ -330,6 +330,30 @@ def run_match_impl(case):
             return out
         out["keys"] = [[key(p), [key(s) for s in ss]] for p, ss in res]
         out["res"] = [[pos[0].get(p.path, -1), [pos[1].get(s.path, -1) for s in ss]] for p, ss in res]
+        # history on the same two objects: the answer of the first call must not have changed anything -- the files are
+        # listed with the coverages they had, the files yielded carry their own coverages, and the same question gets
+        # the same answer (a third time without max_interval: the answer for max_interval = 0 is not checked here, only
+        # that the filesets still list their files as before)
+        hist = []
+        for p_, ss in res:
+            for s_ in ss:
+                j = pos[1].get(s_.path, -1)
+                if j >= 0 and key(s_) != out["listing"][1][j]:
+                    hist.append(f"the secondary file {Path(s_.path).name} is yielded with the coverage {key(s_)}, find() listed it "
+                                f"with {out['listing'][1][j]}")
+                    break
+        try:
+            res2 = list(sets[0].match(sets[1], to_dt(case["start"]), to_dt(case["end"]), max_interval=mi))
+            again = [[pos[0].get(p.path, -1), [pos[1].get(s.path, -1) for s in ss]] for p, ss in res2]
+            if again != out["res"]:
+                hist.append(f"the same match() asked again on the same two FileSet objects yields "
+                            f"{[[key(p), [key(s) for s in ss]] for p, ss in res2]}, the first time {out['keys']}")
+            after = [[key(fi) for fi in fs.find(no_files_error=False)] for fs in sets]
+            if after != out["listing"]:
+                hist.append(f"after match() the filesets list their files as {after}, before as {out['listing']}")
+        except Exception as e:  # noqa
+            hist.append(f"the same match() asked again raised {type(e).__name__}: {str(e)[:100]}")
+        out["history"] = hist
         return out
     finally:
         shutil.rmtree(root, ignore_errors=True)
@@ -484,6 +508,8 @@ def check_match_cases(ctx, cases):
         elif not (increasing([i for i, _ in res]) and all(increasing(js) for _, js in res)):
             ctx.fail("proof", "the specification itself is not in listing order (cannot happen while theorem "
                      "match_full_listing_order stands)", case=c, signature="model-vs-spec")
+        for h in o.get("history") or []:
+            ctx.fail("failing-input", f"FileSet.match changes what later calls see: {h}", case=c, impl=h, signature="match-history")
         if expect and any(len(js) < len(sel_s) for _, js in spec):
             nontrivial.add(repr(c))
         if c["id"] % 7 == 0:
